@@ -26,7 +26,7 @@ ASSUMPTIONS = [
     "with trailing bytes after an RTU frame the served payload must be the prefix of response_data() (the library's "
     "trim keeps the trailing bytes; sensors address the payload by offset)",
 ]
-MUST = ["aa55_sum_ge_8000", "aa55_sum_ge_10000", "rtu_trailing", "end_to_end_success", "negative_write_echo", "overlapping_tcp_inverters", "same_object_sequences", "consecutive_slow_or_identical_answers", "requests_from_a_new_event_loop", "write_ack_payload_checked",
+MUST = ["aa55_sum_ge_8000", "aa55_sum_ge_10000", "rtu_trailing", "end_to_end_success", "negative_write_echo", "overlapping_tcp_inverters", "same_object_sequences", "consecutive_slow_or_identical_answers", "requests_from_a_new_event_loop", "write_ack_payload_checked", "answer_from_another_comm_address",
         "accepted_rtu", "accepted_tcp", "accepted_aa55"]
 EXHAUSTIVE = {"quick": False, "thorough": False}
 CLASSES = ["random", "ff", "00", "7f80", "fe", "aa55"]
@@ -78,11 +78,17 @@ def direct(spec, part):
                             part.count("rtu_trailing")
                 else:
                     check_one(g, part, d, rc.tcp_response(d, pl, txid=rnd.randrange(1, 65535)), cls)
+                # the answering unit reports another address than the one the request was sent to (gateways, broadcast address)
+                d_other = dict(d, comm=(comm + rnd.randrange(1, 255)) % 256)
+                check_one(g, part, d, rc.rtu_response(d_other, pl) if framing == "rtu" else rc.tcp_response(d_other, pl, txid=7), cls, "othercomm")
+                part.count("answer_from_another_comm_address")
         vals = [0, 1, -1, 32767, -32768, 255, -256, 0x7F, -0x80] + [rnd.randrange(-32768, 32768) for _ in range(spec["nvals"])]
         for v in vals:
             d = {"framing": framing, "kind": "write", "comm": rnd.choice(comms), "reg": rnd.randrange(65536), "value": v}
             fr = rc.rtu_response(d) if framing == "rtu" else rc.tcp_response(d, txid=rnd.randrange(1, 65535))
             check_one(g, part, d, fr, "echo")
+            d_other = dict(d, comm=(d["comm"] + rnd.randrange(1, 255)) % 256)
+            check_one(g, part, d, rc.rtu_response(d_other) if framing == "rtu" else rc.tcp_response(d_other, txid=7), "echo", "othercomm")
             if v < 0:
                 part.count("negative_write_echo")
             if framing == "rtu":
@@ -94,6 +100,8 @@ def direct(spec, part):
                  "data": payload_bytes(rnd, nb), "count": nb // 2}
             fr = rc.rtu_response(d) if framing == "rtu" else rc.tcp_response(d, txid=rnd.randrange(1, 65535))
             check_one(g, part, d, fr, "echo")
+            d_other = dict(d, comm=0x7F)
+            check_one(g, part, d, rc.rtu_response(d_other) if framing == "rtu" else rc.tcp_response(d_other, txid=7), "echo", "othercomm")
     for cmdhex, rtype in (("010200", "0182"), ("010600", "0186"), ("010900", "0189")):
         for plen in range(0, 256):
             if plen % spec["stride"] != spec["phase"] % spec["stride"] and plen not in (0, 254, 255):
